@@ -413,6 +413,9 @@ def normalize_url(
     if normalize_amp and hostname and hostname.startswith("amp-"):
         hostname = hostname[4:]
 
+        # NOTE: the prefix could hide a punycode label
+        hostname = decode_punycode_hostname(hostname)
+
     # Dropping trailing slash
     if strip_trailing_slash and path.endswith("/"):
         path = path.rstrip("/")
